@@ -170,9 +170,19 @@ def one_ir(ctx, no, tie, rng, size, want):
                     "IR message / cannot be compared: %s: %s"
                     % (type(e).__name__, str(e)[:80]))
     replay["V0"] = " ".join(V0)[:4000]
+    if getattr(tie, "wire", None) is not None:
+        tie.wire.add("ir %d" % no, msg1, raw1[8:])
     try:
         ir1 = load(gtirb, raw1)
     except (Exception, core.ImplTimeout) as e:   # noqa
+        if ctx.prop == "C02":
+            # the writer half does not depend on the reader: the message
+            # that WAS written is still compared with the attributes
+            tie.add_checked("ir %d (writer only)" % no,
+                            ["wf " + " ".join(V0), "tomsg " + " ".join(V0)],
+                            ["1", " ".join(M1)],
+                            writer_reader_cb(ctx, replay))
+            ctx.count("writer-only-after-load-rejected")
         return fail({"C01", "C17"}, {"kind": "load-rejects-saved",
                                      "exception": type(e).__name__},
                     "a file produced by save was rejected by load: %s: %s"
@@ -242,8 +252,40 @@ def one_ir(ctx, no, tie, rng, size, want):
     # ---------------- C01 once more: the SAME IR object, edited in place
     # after its first save (AuxData values through the references the caller
     # holds, a symbol renamed, an interval's bytes poked), saved again
+    if ctx.prop == "C02" and rng.random() < 0.6:
+        # C02 once more: the message written by a SECOND save of an object
+        # graph (the built one, or the loaded one - first save of a loaded
+        # IR) after in-place edits must again equal the attributes
+        target, tname = (ir0, "built") if rng.random() < 0.5 \
+            else (ir1, "loaded")
+        edited = second_save_edits(gtirb, rng, target, {})
+        edited |= inplace_node_edits(gtirb, rng, target)
+        if edited:
+            try:
+                rawb = save(target)
+                msgb = parse_file(gtirb, rawb)
+                Mb = irdump.dump_mir(msgb)
+                Vb = irdump.dump_irv(gtirb, target,
+                                     msg_aux_bytes(gtirb, msgb, target))
+            except (Exception, core.ImplTimeout) as e:   # noqa
+                return fail({"C02"}, {"kind": "second-save-raises",
+                                      "exception": type(e).__name__},
+                            "saving the %s IR again after in-place edits "
+                            "(%s) raised %s" % (tname, ", ".join(
+                                sorted(edited)), type(e).__name__))
+            ctx.evaluations += 1
+            ctx.count("second-save(%s)" % tname)
+            for k in edited:
+                ctx.count("second-save-edit:" + k)
+            tie.add_checked("ir %d (second save, %s)" % (no, tname),
+                            ["wf " + " ".join(Vb), "tomsg " + " ".join(Vb)],
+                            ["1", " ".join(Mb)],
+                            writer_reader_cb(ctx, dict(
+                                replay, second_save=tname,
+                                edited=sorted(edited))))
     if ctx.prop == "C01" and rng.random() < 0.5:
         edited = second_save_edits(gtirb, rng, ir0, aux)
+        edited |= inplace_node_edits(gtirb, rng, ir0)
         if edited:
             try:
                 ir2 = load(gtirb, save(ir0))
@@ -253,7 +295,9 @@ def one_ir(ctx, no, tie, rng, size, want):
                             "saving / loading the IR a second time after "
                             "in-place edits raised %s" % type(e).__name__)
             ctx.evaluations += 1
-            ctx.count("second-save:" + "+".join(sorted(edited)))
+            ctx.count("second-save")
+            for k in edited:
+                ctx.count("second-save-edit:" + k)
             try:
                 de2 = (ir0.deep_eq(ir2), ir2.deep_eq(ir0))
             except Exception as e:   # noqa
@@ -319,6 +363,62 @@ def second_save_edits(gtirb, rng, ir, aux):
     if bis and rng.random() < 0.5:
         bis[0].contents[0] ^= 0xff
         edited.add("bytes")
+    return edited
+
+
+def inplace_node_edits(gtirb, rng, ir):
+    """in-place edits of objects that stay where they are: a symbolic
+    expression's attributes / offset / scale / symbol, a block's size and
+    offset, a section's flags, a symbol's payload, an edge label"""
+    edited = set()
+    syms = sorted(ir.symbols, key=lambda y: y.uuid.bytes)
+    for x in sorted(ir.byte_intervals, key=lambda x: x.uuid.bytes):
+        for off in sorted(x.symbolic_expressions):
+            e = x.symbolic_expressions[off]
+            r = rng.random()
+            if r < 0.3:
+                known = list(gtirb.SymbolicExpression.Attribute)
+                a = rng.choice(known)
+                if a in e.attributes:
+                    e.attributes.discard(a)
+                else:
+                    e.attributes.add(a)
+                edited.add("expr-attributes")
+            elif r < 0.5 and isinstance(e, gtirb.SymAddrConst):
+                e.offset = rng.choice([0, -1, 5, 2**63 - 1, -2**63])
+                edited.add("expr-offset")
+            elif r < 0.5 and isinstance(e, gtirb.SymAddrAddr):
+                e.scale = rng.choice([1, 2, -4])
+                e.offset = rng.choice([0, 7, -9])
+                edited.add("expr-scale")
+            elif r < 0.65 and syms:
+                # only symbols of the interval's own module keep the IR
+                # self-contained whatever the module order
+                own = [y for y in syms if y.module is x.module]
+                if own and isinstance(e, gtirb.SymAddrConst):
+                    e.symbol = rng.choice(own)
+                    edited.add("expr-symbol")
+                elif own and isinstance(e, gtirb.SymAddrAddr):
+                    e.symbol2 = rng.choice(own)
+                    edited.add("expr-symbol")
+    blocks = sorted(ir.byte_blocks, key=lambda b: b.uuid.bytes)
+    if blocks and rng.random() < 0.5:
+        b = rng.choice(blocks)
+        b.size = b.size + 1
+        edited.add("block-size")
+    if blocks and rng.random() < 0.3:
+        b = rng.choice(blocks)
+        b.offset = b.offset + 1
+        edited.add("block-offset")
+    secs = sorted(ir.sections, key=lambda s: s.uuid.bytes)
+    if secs and rng.random() < 0.4:
+        sec = rng.choice(secs)
+        f = rng.choice(list(gtirb.Section.Flag))
+        if f in sec.flags:
+            sec.flags.discard(f)
+        else:
+            sec.flags.add(f)
+        edited.add("section-flags")
     return edited
 
 
@@ -597,6 +697,15 @@ def run(ctx, props, n=None):
                 "non-trivial = distinct (modules, nodes/8, has edges, has "
                 "AuxData)")
     tie = CheckedTie(ctx, "msg", "msg", flush_at=40)
+    # model W (protobuf wire format, serializer and parser of the message):
+    # every saved file is also parsed / written by the Lean model and compared
+    # with the real protobuf library (C01 C02 C17 use the byte-level theorems)
+    wire = None
+    if ctx.prop in ("C01", "C02", "C17"):
+        import gtirb
+        import pbwire_tie
+        wire = pbwire_tie.WireTie(ctx, gtirb)
+    tie.wire = wire
     if ctx.prop in ("C01", "C17"):
         forward_entry_probe(ctx)
     n = n or ctx.scale(400, 5000)
@@ -606,6 +715,8 @@ def run(ctx, props, n=None):
             one_ir(ctx, i, tie, ctx.rng, size, props)
         except core.HarnessError:
             raise
+        if wire is not None and i % 20 == 19:
+            wire.flush()
         if len(ctx.violations) >= 3:
             break
     if "C02" in props or "C09" in props or "C17" in props:
@@ -616,3 +727,5 @@ def run(ctx, props, n=None):
             if len(ctx.violations) >= 3:
                 break
     tie.flush()
+    if wire is not None:
+        wire.flush()
